@@ -63,6 +63,8 @@ pub enum What {
     DropHandles,
     DropStream,
     AdminReconfig(u32),
+    NeighbourStart(u32),
+    NeighbourPoll(u32),
 }
 
 #[derive(Clone, Debug, PartialEq, Eq, PartialOrd, Ord)]
